@@ -34,6 +34,9 @@
 #include "ref_metric.h"
 #include "ref_mpi.h"
 #include "ref_validation.h"
+#ifdef NASA_REFINE_VERIF
+#include "ref_verif.h"
+#endif
 
 REF_FCN static REF_STATUS ref_smooth_add_pliant_force(
     REF_NODE ref_node, REF_INT center, REF_INT neighbor,
@@ -1871,7 +1874,13 @@ REF_FCN REF_STATUS ref_smooth_pass(REF_GRID ref_grid) {
     }
 
     ref_node_age(ref_node, node) = 0;
+#ifdef NASA_REFINE_VERIF
+    ref_verif_op("begin", "smooth_edge", ref_grid, node, REF_EMPTY, REF_EMPTY);
+#endif
     RSS(ref_smooth_no_geom_edge_improve(ref_grid, node), "improve");
+#ifdef NASA_REFINE_VERIF
+    ref_verif_op("end", "smooth_edge", ref_grid, node, REF_EMPTY, REF_EMPTY);
+#endif
   }
 
   if (vol_val) RSS(ref_validation_cell_volume(ref_grid), "vol nogeom edge");
@@ -1920,7 +1929,13 @@ REF_FCN REF_STATUS ref_smooth_pass(REF_GRID ref_grid) {
       ref_node_age(ref_node, node)++;
       continue;
     }
+#ifdef NASA_REFINE_VERIF
+    ref_verif_op("begin", "smooth_tri", ref_grid, node, REF_EMPTY, REF_EMPTY);
+#endif
     RSS(ref_smooth_no_geom_tri_improve(ref_grid, node), "no geom smooth");
+#ifdef NASA_REFINE_VERIF
+    ref_verif_op("end", "smooth_tri", ref_grid, node, REF_EMPTY, REF_EMPTY);
+#endif
   }
 
   if (vol_val) RSS(ref_validation_cell_volume(ref_grid), "vol face nogeom");
@@ -1943,7 +1958,13 @@ REF_FCN REF_STATUS ref_smooth_pass(REF_GRID ref_grid) {
                ref_cell_node_empty(ref_grid_qua(ref_grid), node) &&
                !ref_cell_node_empty(ref_grid_tet(ref_grid), node);
     if (interior) {
+#ifdef NASA_REFINE_VERIF
+      ref_verif_op("begin", "smooth_tet", ref_grid, node, REF_EMPTY, REF_EMPTY);
+#endif
       RSS(ref_smooth_tet_improve(ref_grid, node), "ideal tet node");
+#ifdef NASA_REFINE_VERIF
+      ref_verif_op("end", "smooth_tet", ref_grid, node, REF_EMPTY, REF_EMPTY);
+#endif
       ref_node_age(ref_node, node) = 0;
     }
   }
@@ -1974,7 +1995,13 @@ REF_FCN REF_STATUS ref_smooth_pass(REF_GRID ref_grid) {
           interior = ref_cell_node_empty(ref_grid_tri(ref_grid), node) &&
                      ref_cell_node_empty(ref_grid_qua(ref_grid), node);
           if (interior) {
+#ifdef NASA_REFINE_VERIF
+            ref_verif_op("begin", "smooth_tet", ref_grid, node, REF_EMPTY, REF_EMPTY);
+#endif
             RSS(ref_smooth_tet_improve(ref_grid, node), "ideal");
+#ifdef NASA_REFINE_VERIF
+            ref_verif_op("end", "smooth_tet", ref_grid, node, REF_EMPTY, REF_EMPTY);
+#endif
             ref_node_age(ref_node, node) = 0;
           }
         }
@@ -2000,7 +2027,13 @@ REF_FCN REF_STATUS ref_smooth_post_edge_split(REF_GRID ref_grid, REF_INT node) {
   interior = ref_cell_node_empty(ref_grid_tri(ref_grid), node) &&
              ref_cell_node_empty(ref_grid_qua(ref_grid), node);
   if (interior) {
+#ifdef NASA_REFINE_VERIF
+    ref_verif_op("begin", "smooth_tet", ref_grid, node, REF_EMPTY, REF_EMPTY);
+#endif
     RSS(ref_smooth_tet_improve(ref_grid, node), "ideal tet node");
+#ifdef NASA_REFINE_VERIF
+    ref_verif_op("end", "smooth_tet", ref_grid, node, REF_EMPTY, REF_EMPTY);
+#endif
     ref_node_age(ref_node, node) = 0;
   }
 
